@@ -796,7 +796,7 @@ impl PropRun {
                 continue;
             }
             violations += 1;
-            let dir = format!("{}/replays/{}", self.verif_dir, id);
+            let dir = format!("{}/replays/{}", out_dir(&self.verif_dir), id);
             let _ = std::fs::create_dir_all(&dir);
             let body = json!({
                 "property": id, "suite": f.suite, "message": f.message,
@@ -847,7 +847,7 @@ impl PropRun {
             "wall_s": self.t0.elapsed().as_secs_f64(),
             "violations": violations,
         });
-        let evdir = format!("{}/evidence", self.verif_dir);
+        let evdir = format!("{}/evidence", out_dir(&self.verif_dir));
         let _ = std::fs::create_dir_all(&evdir);
         std::fs::write(format!("{evdir}/{id}.json"), serde_json::to_string_pretty(&ev).unwrap())
             .expect("write evidence");
@@ -867,6 +867,11 @@ impl PropRun {
             0
         }
     }
+}
+
+/// where evidence and failure replays are written (VERIF_OUT_DIR overrides, used for seeded-change trials)
+pub fn out_dir(verif_dir: &str) -> String {
+    std::env::var("VERIF_OUT_DIR").unwrap_or_else(|_| verif_dir.to_string())
 }
 
 /// Replay one saved failure file through a check (strict; no proptest).
